@@ -25,7 +25,6 @@ func strBounds(t string, b *strings.Builder, gv *[]string) {
 	fmt.Fprintf(b, "(assert (<= (slen %s) %d))\n", t, maxStr)
 	*gv = append(*gv, "(slen "+t+")")
 	for i := 0; i < maxStr; i++ {
-		fmt.Fprintf(b, "(assert (=> (< %d (slen %s)) (and (<= 33 (sat %s %d)) (<= (sat %s %d) 126) (not (= (sat %s %d) 34)) (not (= (sat %s %d) 92)))))\n", i, t, t, i, t, i, t, i, t, i)
 		*gv = append(*gv, fmt.Sprintf("(sat %s %d)", t, i))
 	}
 }
@@ -38,7 +37,6 @@ func BoundedModels(ex *symex.Exec, o *symex.Obligation, timeout time.Duration, s
 		return nil
 	}
 	var b strings.Builder
-	b.WriteString("(set-option :model.completion true)\n")
 	b.WriteString(ex.Prelude())
 	b.WriteString(o.Extra)
 	for _, h := range o.Hyps {
@@ -67,8 +65,12 @@ func BoundedModels(ex *symex.Exec, o *symex.Obligation, timeout time.Duration, s
 	text := b.String()
 	dumpQuery(sanitizeName(o.Name), text)
 	var out []Candidate
-	for _, r := range smt.SolveAll(text, timeout, seed) {
-		if !strings.HasPrefix(r.Solver, "z3") {
+	results := []smt.Result{smt.FiniteModel(text, timeout, seed)}
+	if results[0].Status != smt.Sat {
+		results = append(results, smt.SolveAll("(set-option :model.completion true)\n"+text, timeout/2, seed)...)
+	}
+	for _, r := range results {
+		if strings.HasPrefix(r.Solver, "cvc5-1.0") && r.Solver != "cvc5-1.0-fmf" {
 			continue
 		}
 		if r.Status != smt.Sat && r.Status != smt.Unknown {
